@@ -7,13 +7,13 @@ from extract import c07_tables
 from gen import dbgen, exprgen
 from props.c12 import workdir
 
-THEOREMS = ["IgVerif.C07.c07_eval", "IgVerif.C07.c07_never_wrong", "IgVerif.C07.c07_unknown_is_unevaluated", "IgVerif.C07.c07_spec_in_range",
+THEOREMS = ["IgVerif.C07.c07_literal", "IgVerif.C07.c07_strtol_snoc", "IgVerif.C07.c07_eval", "IgVerif.C07.c07_never_wrong", "IgVerif.C07.c07_unknown_is_unevaluated", "IgVerif.C07.c07_spec_in_range",
             "IgVerif.C07.c07_extraction_ok", "IgVerif.C07.c07_precedence", "IgVerif.C07.c07_productions", "IgVerif.C07.c07_unary_productions",
             "IgVerif.C07.c07_eval_mirror", "IgVerif.Ex.evaluate_eq_cxxEval", "IgVerif.Ex.cxxEval_inInt"]
 PARTIAL = [("c07_parse_print (bison's conflict resolution by the %left/%right table yields the C++ parse)",
             "the precedence/associativity table and the operator productions are decided on the extracted grammar; that an LALR parser with that "
             "table parses minimally parenthesised text into the intended tree is validated by the correspondence (g++ and interrogate read the same text), not proved"),
-           ("c07_literal (lexing of integer/character literals in every base)", "covered by the correspondence and the g++ oracle, no Lean model of get_number yet"),
+           ("c07_char_literal (character literals and escape sequences)", "covered by the correspondence and the g++ oracle only; integer literals are c07_literal"),
            ("c07_enum_increment", "implicit enumerator increment is exercised by the generator and compared with g++, not modelled in Lean")]
 
 
@@ -171,6 +171,43 @@ def run(ck):
                     ck.violation("wrong-constant:%s" % kind, "%s %s = %s is recorded as %d, the C++ compiler computes %d" % (kind, name, etext, gval, ref[name]), files)
         ck.extra["constants"] = total
         ck.extra["unevaluated_by_interrogate"] = uneval
+
+        # ---- integer literals in every base, with digit separators: database value vs the Lean get_number model vs g++ ----------------
+        lits = ["0", "7", "017", "0x1F", "0XfF", "0b101", "0B11", "1'000", "0xFF'FF", "0b1'01", "0'17", "12'34'5", "2147483647", "0x7fffffff", "0b1111111111111111111111111111111", "0xA'b'C"]
+        for i in range(40 if quick else 1500):
+            base = rng.choice(["dec", "hex", "bin", "oct"])
+            digs = {"dec": "0123456789", "hex": "0123456789abcdefABCDEF", "bin": "01", "oct": "01234567"}[base]
+            n = rng.randrange(1, {"dec": 9, "hex": 7, "bin": 30, "oct": 10}[base] + 1)
+            ds = [rng.choice(digs) for _ in range(n)]
+            if base == "dec" and ds[0] == "0":
+                ds[0] = rng.choice("123456789")
+            body = ds[0] + "".join((("'" if rng.random() < 0.3 else "") + d) for d in ds[1:])
+            lits.append({"dec": "", "hex": rng.choice(["0x", "0X"]), "bin": rng.choice(["0b", "0B"]), "oct": "0"}[base] + body)
+        lits = [l for l in dict.fromkeys(lits) if int(l.replace("'", ""), 0 if not re.match(r"^0[0-7']+$", l) else 8) <= 2147483647]
+        text = "enum Lits {\n" + ",\n".join("  lit%d = %s" % (i, l) for i, l in enumerate(lits)) + "\n};\n"
+        hp = wd / "lits.h"
+        hp.write_text(text)
+        od = wd / "lits.in"
+        cmd = [str(bdir / "bin" / "interrogate"), "-D__cplusplus", "-promiscuous", "-oc", str(wd / "l.cxx"), "-od", str(od), "-module", "m", "-library", "l", "-c", "-fnames", hp.name]
+        rc, so, se = iglib.sh(cmd, cwd=str(wd), timeout=120, env={"SOURCE_DATE_EPOCH": "1"})
+        if rc != 0 or not od.exists():
+            ck.violation("interrogate-fails:literals", "interrogate failed (rc=%s) on an enum of integer literals: %s" % (rc, se[-300:]), {hp.name: text, "cmd.txt": " ".join(cmd) + "\n"}, se[-3000:])
+        else:
+            db = dbgen.dec_file(lay, od.read_bytes())
+            got = {}
+            for _, t in db["type"]:
+                for ev in t["_enum_values"]:
+                    got[ev["_name"].decode()] = ev["_value"]
+            model = iglib.run_driver("lit", ["lit " + (l + ",").encode().hex() for l in lits])
+            for i, (l, m) in enumerate(zip(lits, model)):
+                want = int(l.replace("'", ""), 8 if re.match(r"^0[0-7']+$", l) else 0)
+                mv = int(m.split()[0]) if m != "none" else None
+                gv = got.get("lit%d" % i)
+                ck.corr_case("literal-vs-get_number-model", l, gv == mv, detail="database %s, model %s" % (gv, m), nontrivial=len(l) > 1,
+                             feature=[m.split()[1] if m != "none" else "none", "separator" if "'" in l else "plain"])
+                ck.search_case("values-equal-gxx")
+                if gv != want:
+                    ck.violation("wrong-constant:literal", "the literal %s is recorded as %s, its value is %d" % (l, gv, want), {hp.name: "enum Lits { lit%d = %s };\n" % (i, l)})
 
         # ---- things interrogate cannot evaluate must come out unevaluated, not as numbers; and must not crash ------
         bad = "enum B { B0 = 1/0, B1 = 5 %% 0 };\n#define MB (1/0)\nstruct SB { __published: int x[some_unknown + 1]; };\nenum B2 { C0 = some_unknown, C1 };\n#define MU (some_unknown * 2)\n".replace("%%", "%")
